@@ -537,6 +537,12 @@ func (r *Run) global(g *ssa.Global) *value {
 	if !strings.HasPrefix(g.Name(), "init$guard") {
 		r.ensureInit(g.Pkg)
 	}
+	if r.w.uninit[g] && !r.w.fixedUp[g] {
+		if r.w.uninitRead == nil {
+			r.w.uninitRead = map[string]bool{}
+		}
+		r.w.uninitRead[g.String()] = true
+	}
 	return c
 }
 
@@ -552,6 +558,7 @@ func (r *Run) ensureInit(pkg *ssa.Package) {
 	done[pkg] = true
 	pol := r.eng.initPolicy(pkg.Pkg.Path())
 	if pol == "skip" {
+		r.initConstStores(pkg)
 		r.initFixups(pkg)
 		return
 	}
@@ -622,6 +629,36 @@ func sortedKeys[V any](m map[string]V) []string {
 	return ks
 }
 
+// initConstStores executes, for a package whose initialiser is not run, the stores of constants
+// into package-level variables (var X byte = 0x7f ...), so that such variables do not silently
+// read as zero. Globals initialised by anything else are remembered; reading one of them is
+// reported in the evidence (uninitialised_globals_read).
+func (r *Run) initConstStores(pkg *ssa.Package) {
+	r.eng.buildPkg(pkg)
+	initFn := pkg.Func("init")
+	if initFn == nil {
+		return
+	}
+	for _, b := range initFn.Blocks {
+		for _, ins := range b.Instrs {
+			st, ok := ins.(*ssa.Store)
+			if !ok {
+				continue
+			}
+			g, ok := st.Addr.(*ssa.Global)
+			if !ok || g.Pkg != pkg {
+				continue
+			}
+			if c, ok := st.Val.(*ssa.Const); ok {
+				cell := r.global(g)
+				*cell = constValue(c)
+				continue
+			}
+			r.w.noteUninit(g)
+		}
+	}
+}
+
 // initFixups sets the few globals of init-skipped packages that the targets read.
 func (r *Run) initFixups(pkg *ssa.Package) {
 	switch pkg.Pkg.Path() {
@@ -633,8 +670,15 @@ func (r *Run) initFixups(pkg *ssa.Package) {
 		for _, n := range []string{"ErrInvalid", "ErrPermission", "ErrExist", "ErrNotExist", "ErrClosed"} {
 			if g := pkg.Var(n); g != nil {
 				if src := fsp.Var(n); src != nil {
+					r.w.markFixed(g)
 					*r.global(g) = *r.global(src)
 				}
+			}
+		}
+		// only reachable through log output, which is stubbed out
+		for _, n := range []string{"Stdout", "Stderr", "Stdin", "Args"} {
+			if g := pkg.Var(n); g != nil {
+				r.w.markFixed(g)
 			}
 		}
 	case "internal/oserror":
